@@ -164,6 +164,7 @@ def main(argv=None):
     try:
         from . import loader
 
+        loader.build_cpp_ext()  # once, in the master, before workers need it
         loader.setup()
         mod = importlib.import_module(ctx.modname)
         if a.replay:
